@@ -531,6 +531,12 @@ pub fn explore(run: &mut Run, tier: Tier, prop: &str) -> Totals {
         tot.transitions += st.transitions;
         tot.terminal += st.terminal_states;
         tot.exhausted &= st.exhausted;
+        // liveness: the frame is valid, so some driver program must finish it; a search that closes (or is cut
+        // short only by a cap, not by violations) without ever reaching a finished, drained state means every
+        // program gets stuck
+        if prop == "C06" && st.terminal_states == 0 && found.is_empty() && st.exhausted {
+            run.violation(Violation { identity: format!("{}:no_program_finishes", if sys.stream_mode { "stream" } else if sys.slice_mode { "slice" } else { "reader" }), what: format!("frame [{}] ({mode}): {} states were explored to closure and none of them is a finished, fully drained decoder: no sequence of calls finishes this valid frame", sys.seed.name, st.states), replay: json!({"frame_name": sys.seed.name, "frame": show(&sys.seed.frame), "trickle": sys.trickle, "slice_mode": sys.slice_mode, "stream_mode": sys.stream_mode, "ops": []}) });
+        }
         for f in found {
             let r1 = xplore::replay(sys, &f.ops).err();
             let r2 = xplore::replay(sys, &f.ops).err();
